@@ -27,10 +27,10 @@ func (f *follower) init() {
 func (f *follower) release() {}
 
 func (f *follower) resetTimer() {
-	if yes, _ := f.canStartElection(); yes {
-		f.electionAborted = false
-		f.timer.reset(f.rtime.duration(f.hbTimeout))
-	}
+	// also on a node that cannot campaign: the timer decides when it forgets
+	// its leader, and that must not happen while it keeps hearing from it
+	f.electionAborted = false
+	f.timer.reset(f.rtime.duration(f.hbTimeout))
 }
 
 func (f *follower) onTimeout() {
